@@ -124,6 +124,7 @@ class WorkList:
     def __init__(self):
         self.buckets = {}
         self.n = 0
+        self.pops = 0
 
     def append(self, st):
         self.buckets.setdefault(st.prio, []).append(st)
@@ -132,7 +133,10 @@ class WorkList:
     def pop(self):
         k = min(self.buckets)
         b = self.buckets[k]
-        st = b.pop()
+        self.pops += 1
+        # mostly depth-first (newest state), every third pop the oldest state of the class: alternatives of
+        # *early* decisions (e.g. the key type read at the start of a block) are reached even when the budget ends
+        st = b.pop(0) if (self.pops % 3 == 0 and len(b) > 2) else b.pop()
         if not b:
             del self.buckets[k]
         self.n -= 1
